@@ -11,6 +11,11 @@
 //@ bound: unbounded: every number of hit objects, every position, every n (incl. usize::MAX)
 //@ clause: for ALL N and n: pre: invariant. post: Some iff n < remaining; exactly min(n+1, remaining) values are consumed; the attributes count exactly one more object per consumed object other than the first (so nth(n) counts the same objects as n+1 calls of next()); invariant preserved; indices in bounds; no overflow
 //@ assume: R10: slice.iter().skip(S).take(T) visits the elements S, S+1, ... while in range, at most T of them; R11: Option::filter with a constant predicate; `cmp::min` on usize is a local verified definition
+//@ obl: id=U12.osu.perf.verus fn=OsuGradualPerformance::nth props=C15,C03,C05 tier=quick kind=proof twin=yes pair=U12.osu.perf.n2
+//@ fns: OsuGradualPerformance::nth, OsuGradualPerformance::next, OsuGradualPerformance::last, OsuGradualPerformance::len
+//@ bound: unbounded; modular: checked against the contract of OsuGradualDifficulty::nth proved in the same unit, not its body
+//@ clause: for ALL N and n: the gradual performance calculator's nth(state, n) consumes exactly min(n+1, remaining) objects and returns None exactly when nothing remains; next == nth(0); last == nth(usize::MAX) consumes everything; len() == remaining
+//@ assume: the performance builder chain (performance/lazer/state/difficulty/passed_objects/calculate) is declared as external_body functions: calculate() returns Ok (own-mode attributes need no conversion); what the builder receives is obligation U12.osu.perf.* (Kani)
 //@ obl: id=U12.osu.len.verus fn=OsuGradualDifficulty::len props=C15,C05 tier=quick kind=proof twin=yes pair=U12.osu.protocol.n1
 //@ fns: OsuGradualDifficulty::len (ExactSizeIterator::len)
 //@ bound: unbounded
@@ -82,6 +87,34 @@ impl DifficultyValues {
     { unimplemented!() }
 }
 
+#[verifier::external_body] pub struct OsuScoreState { _p: () }
+#[verifier::external_body] pub struct OsuPerformanceAttributes { _p: () }
+#[verifier::external_body] pub struct OsuPerformance { _p: () }
+#[verifier::external_body] #[derive(Debug)] pub struct ConvertError { _p: () }
+
+impl Clone for Difficulty {
+    #[verifier::external_body]
+    fn clone(&self) -> Self { unimplemented!() }
+}
+impl OsuDifficultyAttributes {
+    #[verifier::external_body]
+    fn performance(self) -> OsuPerformance { unimplemented!() }
+}
+impl OsuPerformance {
+    #[verifier::external_body]
+    fn lazer(self, lazer: bool) -> (r: Self) { unimplemented!() }
+    #[verifier::external_body]
+    fn state(self, state: OsuScoreState) -> (r: Self) { unimplemented!() }
+    #[verifier::external_body]
+    fn difficulty(self, difficulty: Difficulty) -> (r: Self) { unimplemented!() }
+    #[verifier::external_body]
+    fn passed_objects(self, passed_objects: u32) -> (r: Self) { unimplemented!() }
+    #[verifier::external_body]
+    fn calculate(self) -> (r: Result<OsuPerformanceAttributes, ConvertError>)
+        ensures r.is_ok()
+    { unimplemented!() }
+}
+
 /*@extract struct file=src/osu/difficulty/gradual.rs name=OsuGradualDifficulty */
 
 impl OsuGradualDifficulty {
@@ -148,6 +181,45 @@ impl OsuGradualDifficulty {
 @spec
         requires self.inv()
         ensures r == self.remaining()
+*/
+}
+
+/*@extract struct file=src/osu/performance/gradual.rs name=OsuGradualPerformance */
+
+impl OsuGradualPerformance {
+/*@extract fn file=src/osu/performance/gradual.rs impl=OsuGradualPerformance name=nth ret=r
+@spec
+        requires old(self).difficulty.inv()
+        ensures
+            final(self).difficulty.inv(),
+            r.is_some() <==> old(self).difficulty.remaining() > 0,
+            final(self).difficulty.idx == old(self).difficulty.idx
+                + (if n < old(self).difficulty.remaining() { n + 1 } else { old(self).difficulty.remaining() }),
+            final(self).difficulty.remaining() == old(self).difficulty.remaining() - (final(self).difficulty.idx - old(self).difficulty.idx),
+*/
+
+/*@extract fn file=src/osu/performance/gradual.rs impl=OsuGradualPerformance name=next ret=r
+@spec
+        requires old(self).difficulty.inv()
+        ensures
+            final(self).difficulty.inv(),
+            r.is_some() <==> old(self).difficulty.remaining() > 0,
+            final(self).difficulty.idx == old(self).difficulty.idx + (if old(self).difficulty.remaining() > 0 { 1int } else { 0int }),
+*/
+
+/*@extract fn file=src/osu/performance/gradual.rs impl=OsuGradualPerformance name=last ret=r
+@spec
+        requires old(self).difficulty.inv()
+        ensures
+            final(self).difficulty.inv(),
+            r.is_some() <==> old(self).difficulty.remaining() > 0,
+            final(self).difficulty.remaining() == 0,
+*/
+
+/*@extract fn file=src/osu/performance/gradual.rs impl=OsuGradualPerformance name=len ret=r
+@spec
+        requires self.difficulty.inv()
+        ensures r == self.difficulty.remaining()
 */
 }
 
